@@ -52,7 +52,7 @@ MPATHS = ["archive", "cleaner", "host", "helper"]
 PLAN = dict(
     quick=dict(
         # requirement vs table + cache (whole-cache invalidation): every interleaving to depth 5
-        hist=[dict(np=2, bud=[1], depth=6, cache="all", pats=[[1], [2]])],
+        hist=[dict(np=2, bud=[1], depth=5, cache="all", pats=[[1], [2]])],
         # the code's invalidation rule: TLC must find the stale look-up
         stale=dict(np=2, bud=[1], depth=5, cache="self", pats=[[1], [2], [0]]),
         emit=dict(np=1, bud=[1], depth=3, cache="none", pats=[[1]]),
@@ -60,7 +60,7 @@ PLAN = dict(
         nsim=1200, hist_cap=3500, nrand_hist=700, content_cap=1100, nrand_content=350, tests_cases=120,
         grep_every=4, selftest=16),
     thorough=dict(
-        hist=[dict(np=2, bud=[1], depth=8, cache="all", pats=[[1], [2], [0]]),
+        hist=[dict(np=2, bud=[1], depth=7, cache="all", pats=[[1], [2], [0]]),
               dict(np=2, bud=[1, 2], depth=4, cache="all", pats=[[1], [2], [1, 2]])],
         stale=dict(np=2, bud=[1], depth=5, cache="self", pats=[[1], [2], [0]]),
         emit=dict(np=2, bud=[1], depth=3, cache="none", pats=[[1], [2]], get=["I1", "I2", "P", "I3", "D1", "D0"]),
